@@ -391,6 +391,8 @@ def match_known(known, pid, hname, failed_checks):
 
 
 def write_evidence(pid, tier, seed, prop, results, wall, violations, notes):
+    if os.environ.get("VERIF_NO_EVIDENCE"):
+        return
     hs = prop["harnesses"]
     meta = {h["name"]: h for h in hs}
     n_queries = 0
